@@ -27,20 +27,22 @@ import units  # noqa: E402
 
 LEVEL = 'proof'
 META = {
-    'text': 'Coq theorems (Props/C08.v): (1) for EVERY abstract parsed ClientHello the Gallina crash model regenerated from '
-            '_serverGetClientHello on every run (every partial Python operation an explicit Crash outcome) crashes only at '
-            'the listed known sites (partial; the full statement is refuted with witnesses replayed on the live server); '
-            '(2) hand model of the error funnel (_getMsg/_sendError/_shutdown/read/write/close/handshake wrapper): any '
-            'raising call leaves closed=true, resumable=false, mapped classes write the fatal alert first, only documented '
-            'classes for specified parser/record exceptions; (3) parser loops strictly consume input, work and allocation '
-            'linear in the input, decompression bounded under the assumed decompressor contract. Each model is compared '
-            'with the running implementation (vm_compute); the direct oracle mutates the peer traffic of 24 handshake '
-            'flavours in both roles against live endpoints.',
-    'note': 'Partial: crash-freedom is proved only for the translated ClientHello region; the rest of the handshake '
-            'coroutines is covered by the live mutation search only. Trusted: Coq kernel + vm_compute; '
-            'translator/crashlite.py and the schema of parsed values (validated against the real parser and server on every '
-            'run); hand models C08_Funnel / C08_Work tied by correspondence only; decompressor contract is an assumption '
-            '(measured: violated by zlib path, known finding); work/memory thresholds are empirical constants.',
+    'text': 'Coq theorems (Props/C08.v): (1) FULL crash-freedom of the Gallina crash models regenerated on every run from the '
+            'ClientHello checks of _serverGetClientHello and the ServerHello checks of _clientGetServerHello (every partial '
+            'Python operation an explicit Crash outcome; for EVERY abstract parsed message, settings, oracle); (2) hand model '
+            'of the error funnel (_getMsg/_sendError/_shutdown/read/write/close/handshake wrapper incl. its protocol-error '
+            'alert clauses): any raising call leaves closed=true, resumable=false, mapped classes write the fatal alert '
+            'first, only documented classes for specified exceptions, exact residue of classes that still escape without '
+            'alert; (3) parser loops strictly consume input, work and allocation linear in the input, decompression bounded '
+            'under the decompressor contract (measured to hold for zlib on the real call). Each model is compared with the '
+            'running implementation (vm_compute); the direct oracle mutates the peer traffic of 27 handshake flavours in '
+            'both roles against live endpoints.',
+    'note': 'Partial: crash-freedom is proved only for the two translated hello regions; the rest of the handshake '
+            'coroutines is covered by the live mutation search only (5 known findings remain on HEAD). Trusted: Coq kernel + '
+            'vm_compute; translator/crashlite.py and the schema of parsed values (validated against the real parser and '
+            'endpoints on every run); hand models C08_Funnel / C08_Work tied by correspondence only; decompressor contract '
+            'is a premise (measured on the zlib call; brotli/zstd bindings not installed); work/memory thresholds are '
+            'empirical constants.',
     'technique': 'Rocq/Coq proof over translator-regenerated crash model + hand models, vm_compute correspondence, '
                  'live grammar-aware mutation oracle',
 }
@@ -74,12 +76,17 @@ def fuzz_stage(ctx, quick, pool):
             ctx.violation('harness-profile:' + name, 'honest run of flavour failed in the harness: ' + b['error'][-300:],
                           {'flavour': name}, found_input=False)
         elif b['outcome'] != ('ok',) or b['problems']:
-            # an honest handshake that fails is not a C08 matter, but the flavour then gives no mutation points
-            ctx.notes.append('honest flavour %s ends with %s %s' % (name, b['outcome'], b['problems']))
+            # an honest but incompatible peer is also "whatever bytes a peer sends": the oracle applies
+            ctx.notes.append('honest flavour %s ends with %s %s' % (name, b['outcome'], [p[0] for p in b['problems']]))
+            for key, text in b['problems']:
+                ctx.violation(key, '%s [flavour %s, %s under test, unmodified peer]' % (text, name, k[1]),
+                              {'case': {'flavour': k[0], 'role': k[1], 'seed': 12345, 'level': 'msg', 'mut': None,
+                                        'phase': 'post', 'target': None}, 'how': HOW})
         ctx.count('honest-flavours', 1, [name])
     n = 800 if quick else 16000
     cases = c08_fuzz.gen_cases(ctx.rng, n)
     cases += c08_fuzz.bomb_cases(ctx.rng, [8] if quick else [8, 64, 200])
+    cases += c08_fuzz.ecpoint_cases(ctx.rng)
     for i, c in enumerate(cases):
         c08_fuzz.resolve_target(c, profiles)
         c.setdefault('mem', i % 6 == 0)
@@ -135,7 +142,9 @@ def fuzz_stage(ctx, quick, pool):
 
 # ------------------------------------------------------------------------------------------
 def witness_hellos():
-    """Concrete ClientHello bytes for the abstract refutation witnesses of Proofs/C08_Hello.v."""
+    """Concrete ClientHello bytes for the abstract values of Proofs/C08_Hello.v that refuted
+    crash-freedom before /repo b10bb95 / 5fb1773 (site, exception they used to raise, bytes).  On the
+    fixed code the model says `Alert 50` for each (hello_checks_former_witnesses)."""
     from tlslite.messages import ClientHello
     from tlslite.extensions import (TLSExtension, SupportedVersionsExtension, SupportedGroupsExtension,
                                     ClientKeyShareExtension, KeyShareEntry, PskKeyExchangeModesExtension,
@@ -165,7 +174,7 @@ def crash_key(exc):
 
 
 def witness_stage(ctx):
-    """Replay the refutation witnesses on the live server: each must crash as the model says.
+    """Replay the FORMER refutation witnesses on the live server: each must now end in decode_error.
     Also replays corpus/C08/hellos.json (ClientHellos that crashed the server OUTSIDE the translated
     region in earlier runs)."""
     tie = None
@@ -190,17 +199,19 @@ def witness_stage(ctx):
                            'how': './check C08 --replay <this file>'})
     for site, kind, ch in witness_hellos():
         exc = c08_hello.run_server_exc(ch, loop.settings())
-        ctx.count('witness-replay', 1, [site])
-        if exc is None or type(exc).__name__ != kind:
-            tie = tie or ('refutation witness for site %s does not crash the live server with %s (got %r)' % (site, kind, exc))
-            continue
-        key, fn, line = crash_key(exc)
-        found = True
-        ctx.violation(key, 'handshakeServer raises %s: %s (in %s: `%s`) for a syntactically valid ClientHello; '
-                           'model site %s (hello_checks_crash_free_refuted)' % (kind, str(exc)[:120], fn, line, site),
-                      {'client_hello_handshake_message_hex': ch.hex(), 'site': site,
-                       'how': 'send the bytes as one handshake record to TLSConnection.handshakeServer(certChain, privateKey); '
-                              './check C08 --replay <this file>'})
+        ctx.count('former-witness-replay', 1, [site])
+        cls = loop.classify(('exc', exc)) if exc is not None else ('waiting',)
+        if cls[0] == 'Other':
+            key, fn, line = crash_key(exc)
+            found = True
+            ctx.violation(key, 'handshakeServer raises %s: %s (in %s: `%s`) for a syntactically valid ClientHello '
+                               '(former refutation witness for model site %s)' % (type(exc).__name__, str(exc)[:120], fn, line, site),
+                          {'client_hello_handshake_message_hex': ch.hex(), 'site': site,
+                           'how': 'send the bytes as one handshake record to TLSConnection.handshakeServer(certChain, privateKey); '
+                                  './check C08 --replay <this file>'})
+        elif cls != ('LocalAlert', 50):
+            tie = tie or ('former witness for site %s: the model says Alert 50 (hello_checks_former_witnesses) but the live '
+                          'server ends with %r' % (site, cls))
     return tie, found
 
 
@@ -219,6 +230,7 @@ def decompress_contract(ctx, quick):
     if impls.get('zstd_compress') and impls.get('zstd_decompress'):
         algos.append(('zstd', CCA.zstd, impls['zstd_compress']))
     ctx.cov['decompressors_present'] = [a[0] for a in algos]
+    measured = {}
     for name, code, comp in algos:
         for mb in ([16] if quick else [16, 64, 256]):
             data = bytes(comp(bytes(mb * 1024 * 1024)))
@@ -239,6 +251,12 @@ def decompress_contract(ctx, quick):
                 tracemalloc.stop()
                 limit = c08_fuzz.MEM_C * (len(data) + declared) + c08_fuzz.MEM_C0
                 ctx.count('decompress-contract', 1, [(name, mb, declared, peak > limit)])
+                m = measured.setdefault(name, {'calls': 0, 'max_peak': 0, 'holds': True})
+                m['calls'] += 1
+                m['max_peak'] = max(m['max_peak'], peak)
+                m['holds'] = m['holds'] and not (peak > limit or bad_len)
+                m['last'] = '%d compressed bytes of %d MiB zeros declared as %d: %s, peak %d <= limit %d' % (
+                    len(data), mb, declared, res, peak, limit)
                 if peak > limit or bad_len:
                     found = True
                     ctx.violation('mem:decompress:%s' % name,
@@ -248,6 +266,8 @@ def decompress_contract(ctx, quick):
                                   {'algorithm': name, 'compressed_len': len(data), 'declared': declared, 'zeros_mb': mb,
                                    'peak': peak, 'how': 'CompressedCertificate(x509)._decompress(compress(bytes(%d MB)), %d) '
                                                         'under tracemalloc' % (mb, declared)})
+    # the contract premise of alloc_bounded ("output/allocation never exceeds the limit passed in"), as measured
+    ctx.cov['decompressor_contract_measured'] = measured
     return found
 
 
